@@ -39,8 +39,23 @@ def run_case(w, rng):
 
     try:
         obs = Obs(env)
+        from_xobject = False
         try:
-            h = build_root(c, rng, obs)
+            if t["k"] in ("st", "ar") and rng.random() < 0.25:
+                from_xobject = True
+                # copy-construction from an object that lives in the same buffer or elsewhere, taken through the
+                # handle its constructor returned or through a view rebuilt from buffer and offset
+                c.mode, c.reserved = None, None
+                src = c.cls(plain(t, c.mv, rng, np_scalars=True), _buffer=env.buf if rng.random() < 0.6 else None)
+                if rng.random() < 0.5:
+                    src = c.cls._from_buffer(src._buffer, src._offset)
+                    w.count("constructed_from_rebuilt_view")
+                env.repoison()
+                obs.__init__(env)
+                h = c.cls(src, _buffer=env.buf)
+                w.count("constructed_from_xobject")
+            else:
+                h = build_root(c, rng, obs)
         except Exception as e:
             w.violation(f"construct-{exc_kind(e)}", f"{type(e).__name__}: {e}", c.info)
             return
@@ -65,6 +80,10 @@ def run_case(w, rng):
         _check_extents(w, viol, "construct", obs, A)
         # (iii) sizes
         want = 16 if t["k"] == "ur" else plan_size(t, c.mv)
+        if from_xobject and _has_capstr(t, c.mv):
+            # a copy may or may not keep the spare capacity of strings created from a capacity: the documented size
+            # is not unique; allocated == reported == decoded is still demanded
+            want = root[1]
         rep = getattr(h, "_size", None)
         rep = int(rep) if rep is not None else None
         if hasattr(h, "_get_size"):
@@ -137,6 +156,11 @@ def run_case(w, rng):
     finally:
         env.close()
         flush_contracts(w, c.info)
+
+
+def _has_capstr(t, mv):
+    from xv.typegen import CapStr
+    return any(isinstance(nv, CapStr) for _p, _l, nt, nv in nodes(t, mv) if nt["k"] == "str")
 
 
 def _root(h, t):
